@@ -282,16 +282,12 @@ def evalMatchCases : Nat → Nat → CellId → List MatchCase → EM CellId
       match (← pushFrame b!"<match>") with
       | .error m => throwRt pos m
       | .ok () =>
-        bindAll bindings
         -- the frame is dropped however the body is left
-        fun s =>
-          let r : Res CellId := (match body with
-            | .expr be => evalExpr n be
-            | _ => do evalStmt n body; newCell (.nil none) : EM CellId) s
-          match r with
-          | .ok c s' => .ok c { s' with frames := saved }
-          | .err e s' => .err e { s' with frames := saved }
-          | .oof => .oof
+        withFrames saved (do
+          bindAll bindings
+          match body with
+          | .expr be => evalExpr n be
+          | _ => do evalStmt n body; newCell (.nil none))
 
 /-- `evalCaseMatch(value, exprs)`: `some bindings` when one of the alternatives matches -/
 def evalCaseMatch : Nat → CellId → List Expr → EM (Option (List (Bytes × CellId)))
@@ -356,18 +352,10 @@ def callFunction : Nat → Nat → CellId → List CellId → EM CellId
         match (← pushFrame f.ident.text) with
         | .error m => throwRt pos m
         | .ok () =>
-          bindParams f.args args
-          fun s =>
-            match evalStmt n f.body s with
-            | .ok () s' =>
-              (newCell (.nil none)) { s' with frames := saved }
-            | .err (.sig .ret) s' =>
-              let rv : Val := match s'.returnVal with
-                | some c => s'.heap.get c
-                | none => .nil none
-              (newCell rv) { s' with frames := saved }
-            | .err e s' => .err e { s' with frames := saved }
-            | .oof => .oof
+          withFrames saved (do
+            bindParams f.args args
+            let rv ← catchReturn (evalStmt n f.body)
+            newCell rv)
     | _ => throwRt pos "attempted to call a non-function"
 
 /-- `evalUnaryExpr` -/
@@ -526,13 +514,7 @@ def whileLoop : Nat → Expr → Stmt → EM Unit
   | n + 1, c, body => do
     let cell ← evalExpr n c
     if (← readCell cell).truthy then
-      fun s =>
-        match evalStmt n body s with
-        | .ok () s' => whileLoop n c body s'
-        | .err (.sig .brk) s' => .ok () s'
-        | .err (.sig .cont) s' => whileLoop n c body s'
-        | .err e s' => .err e s'
-        | .oof => .oof
+      loopIter (evalStmt n body) (whileLoop n c body)
     else pure ()
 
 /-- `for { cond; body; post }` of StatementFor (after the pre-expression) -/
@@ -541,18 +523,9 @@ def forLoop : Nat → Expr → Expr → Stmt → EM Unit
   | n + 1, c, post, body => do
     let cell ← evalExpr n c
     if (← readCell cell).truthy then
-      fun s =>
-        let continue_ (s' : St) : Res Unit :=
-          match evalExpr n post s' with
-          | .ok _ s'' => forLoop n c post body s''
-          | .err e s'' => .err e s''
-          | .oof => .oof
-        match evalStmt n body s with
-        | .ok () s' => continue_ s'
-        | .err (.sig .brk) s' => .ok () s'
-        | .err (.sig .cont) s' => continue_ s'
-        | .err e s' => .err e s'
-        | .oof => .oof
+      loopIter (evalStmt n body) (do
+        let _ ← evalExpr n post
+        forLoop n c post body)
     else pure ()
 
 /-- the iteration of StatementForIn over a list of items fixed at loop entry.  An item is
@@ -574,13 +547,7 @@ def forInLoop : Nat → CellId → Option CellId → Stmt →
     match item with
     | .inl c => writeCell loc (← readCell c)
     | .inr (v, _) => writeCell loc v
-    fun s =>
-      match evalStmt n body s with
-      | .ok () s' => forInLoop n loc indexLocal body rest s'
-      | .err (.sig .brk) s' => .ok () s'
-      | .err (.sig .cont) s' => forInLoop n loc indexLocal body rest s'
-      | .err e s' => .err e s'
-      | .oof => .oof
+    loopIter (evalStmt n body) (forInLoop n loc indexLocal body rest)
 
 end
 
